@@ -7259,7 +7259,9 @@ class TypeChecker(NodeVisitor[None], TypeCheckerSharedApi, SplittingVisitor):
                 )
                 if if_type is not None and (
                     not current_type_range.is_upper_bound
-                    and not is_equivalent(if_type, current_type_range.item)
+                    and not is_equivalent(
+                        literals_to_fallbacks(if_type), current_type_range.item
+                    )
                 ):
                     # type(x) and x.__class__ checks must exact match
                     if_type = UninhabitedType()
@@ -8865,6 +8867,20 @@ def conditional_types(
         proposed_type = default if default is not None else current_type
 
     return proposed_type, remaining_type
+
+
+def literals_to_fallbacks(typ: Type) -> Type:
+    """Replace literal types (also inside a union) by their fallback instances.
+
+    The class of a value of type Literal[1] is exactly int, so for `type(x) == int`
+    checks a literal type is as exact a match as its fallback.
+    """
+    p_typ = get_proper_type(typ)
+    if isinstance(p_typ, LiteralType):
+        return p_typ.fallback
+    if isinstance(p_typ, UnionType):
+        return make_simplified_union([literals_to_fallbacks(item) for item in p_typ.items])
+    return typ
 
 
 def conditional_types_to_typemaps(
